@@ -55,6 +55,31 @@ pub fn run(src: &str) -> String {
   format!("{}|B={}|P={}", head, rb, hexs(&dump))
 }
 
+/// C07 `cdec`: the constants of the compiled program as the loader decodes them, next to the bytes they were
+/// decoded from: `consts=<hex canon>,…;raw=<Tag:hex>,…` (`skip` when the program does not evaluate or compile)
+pub fn const_dump(src: &str) -> String {
+  let tree = match parse_code(src) { Ok(t) => t, Err(_) => return "skip".into() };
+  let mut a = Interpreter::new(0);
+  match std::panic::catch_unwind(std::panic::AssertUnwindSafe(|| a.interpret(&tree))) { Ok(Ok(_)) => {}, _ => return "skip".into() };
+  let bytes = match std::panic::catch_unwind(std::panic::AssertUnwindSafe(|| a.compile())) { Ok(Ok(b)) => b, _ => return "skip".into() };
+  let prog = match std::panic::catch_unwind(std::panic::AssertUnwindSafe(|| ParsedProgram::from_bytes(&bytes))) { Ok(Ok(p)) => p, Ok(Err(e)) => return format!("err:load:{}", e.kind_name()), Err(p) => return format!("panic:load:{}", slug(&p)) };
+  let consts: Vec<String> = match std::panic::catch_unwind(std::panic::AssertUnwindSafe(|| prog.decode_const_entries())) {
+    Ok(Ok(vs)) => vs.iter().map(|v| hexs(&canon(v))).collect(), Ok(Err(e)) => return format!("err:decode:{}", e.kind_name()), Err(p) => return format!("panic:decode:{}", slug(&p)) };
+  let raw: Vec<String> = prog.const_entries.iter().map(|e| {
+    let tag = prog.types.entries.get(e.type_id as usize).map(|t| format!("{:?}", t.tag)).unwrap_or("?".into());
+    let (st, en) = (e.offset as usize, (e.offset + e.length) as usize);
+    if en <= prog.const_blob.len() { format!("{}:{}", tag, hexb(&prog.const_blob[st..en])) } else { format!("{}:!", tag) } }).collect();
+  format!("consts={};raw={}", consts.join(","), raw.join(","))
+}
+
+/// sources whose compiled form holds constants of every kind (for C07's `cdec` class)
+pub fn constant_sources(seed: u64, thorough: bool) -> Vec<String> {
+  let mut scratch = Sink::new();
+  generate(seed, thorough, &mut scratch).into_iter().filter_map(|c| {
+    let f: Vec<&str> = c.split('\t').collect();
+    if ["literals-and-calls", "strings-names-arity", "compound", "conversions", "sets", "tables", "matrix-literals"].contains(&f[1]) { String::from_utf8(crate::c07::unhex(f[2])).ok() } else { None } }).collect()
+}
+
 pub fn exec(case: &str) -> String {
   let f: Vec<&str> = case.split('\t').collect();
   let src = String::from_utf8(crate::c07::unhex(f[2])).unwrap();
